@@ -39,6 +39,9 @@ class ChunkReduceCallee:
 def m_broadcast_to(ex, st, a, k, node):
     """np.broadcast_to(x, shape) for 1-D x and a 1-D shape: the identity, provided the lengths agree (or x has one element)"""
     x, shape = a[0], a[1]
+    if type(x).__name__ == "IndexRec" and isinstance(shape, tuple) and len(shape) == 1:
+        ex.oblige(st, x.labels.length == shape[0], ex._name("broadcast", node), f"line {node.lineno}: np.broadcast_to keeps a 1-D operand of the target length")
+        return x
     n = shape[0] if isinstance(shape, tuple) else shape
     if not isinstance(x, SSeq) or (isinstance(shape, tuple) and len(shape) != 1):
         raise NotImplementedError("broadcast_to beyond 1-D")
